@@ -225,12 +225,17 @@ class Check:
 
         def one(fc):
             f, n = fc
-            rc, out = sh(f"ulimit -s unlimited; timeout 900 coqc -Q {COQ} PG -w -notation-overridden {f}",
-                         timeout=1000, cwd=self.workdir)
-            nums = parse_nums(out) if rc == 0 else None
-            if nums is None or len(nums) != n:
-                return (f, None, out)
-            return (f, nums, out)
+            # generous limits and one retry: on a heavily loaded machine a shard that needs seconds of CPU can
+            # take many minutes of wall time; a timeout here must not be mistaken for a property signal
+            for attempt in (1, 2):
+                rc, out = sh(f"ulimit -s unlimited; timeout 2700 coqc -Q {COQ} PG -w -notation-overridden {f}",
+                             timeout=2800, cwd=self.workdir)
+                nums = parse_nums(out) if rc == 0 else None
+                if nums is not None and len(nums) == n:
+                    return (f, nums, out)
+                if rc not in (124, 137):
+                    break
+            return (f, None, out)
 
         res: list[int] = []
         with ThreadPoolExecutor(max_workers=12) as ex:
@@ -259,6 +264,10 @@ class Check:
                 if code is not None and not (code & 1) and listed:
                     for fid in listed:
                         self.known_hits.setdefault(fid, []).append(c)
+                elif code is None and self.known:
+                    # the model could not be evaluated (reported separately as a broken obligation): an oracle failure
+                    # cannot be told from a listed finding, so it is not presented as a new failing input
+                    self.unattributed = getattr(self, "unattributed", 0) + 1
                 else:
                     self.violation(c, "; ".join(c["oracle_fail"]))
         if mism:
